@@ -3,47 +3,41 @@ C15 — Bot plugin: legality gate and threefold detection over any history (part
 loading and the ABI layout check are runtime behaviour; the encodings crossing the ABI are C16).
 
 `Bot.State` is the model of `ChessBot`; `Engine.ThreeFold` the model of its repetition table.
+The main theorem is `bot_refines`: for every sequence of `set_board` / `make_move` calls the model
+answers exactly like the specification `Spec.Bot` (legality by the rules of chess on the mailbox,
+reference successor, third occurrence counted over the list of produced positions).  "The move
+it proposes is legal" is `C11.search_legal` applied to the plugin's current board.
 -/
-import ChessVerif.Model.Bot
-import ChessVerif.Spec.WF
+import ChessVerif.Props.C15.Basic
+import ChessVerif.Proofs.BotRefine
 
 namespace Chess.Props.C15
 open Chess Chess.Bot Chess.Engine
 
-/-- the legality gate: an illegal move leaves the plugin exactly as it was and is reported invalid -/
-theorem makeMove_illegal (s : State) (m : Move) (h : s.board.isLegal m = false) :
-    makeMove s m = (s, ⟨false, false⟩) := by simp [makeMove, h]
+/-- **refinement, every history**: starting from the plugin's initial state, for every sequence of
+calls in which the boards handed to `set_board` are well formed (they are: C06), after each call
+ * the answer (`is_valid`, `is_three_fold_draw`) equals the specification's: valid iff the move is
+   legal by the rules in the current position; flag iff the produced position now occurs exactly
+   three times among the positions produced since the board was last set;
+ * the plugin's board is the reference successor (same placement, side to move, rights, e.p. file
+   as the specification's position) and is again well formed.
+`Agree` (Proofs/BotRefine.lean) spells this out call by call. -/
+theorem bot_refines (ops : List Proofs.BotRefine.Op) (hwf : ∀ b, Proofs.BotRefine.Op.set b ∈ ops → b.WF = true) :
+    Proofs.BotRefine.Agree Bot.init ⟨Spec.abs Board.standard, []⟩ ops :=
+  Proofs.BotRefine.bot_refines ops hwf
 
-/-- a legal move is applied: the reported board is the successor, the move is reported valid, and
-the flag is what the repetition table answers for the successor -/
-theorem makeMove_legal (s : State) (m : Move) (h : s.board.isLegal m = true) :
-    (makeMove s m).1.board = s.board.moveUnchecked m ∧ (makeMove s m).2.isValid = true ∧
-    (makeMove s m).2.isThreeFold = (s.table.add (s.board.moveUnchecked m)).2 ∧
-    (makeMove s m).1.table = (s.table.add (s.board.moveUnchecked m)).1 := by
-  simp [makeMove, h]
+/-- the same from the state just after `set_board(b)` -/
+theorem bot_refines_from (b : Board) (hb : b.WF = true) (ops : List Proofs.BotRefine.Op)
+    (hwf : ∀ b, Proofs.BotRefine.Op.set b ∈ ops → b.WF = true) :
+    Proofs.BotRefine.Agree ⟨b, []⟩ (Spec.Bot.setBoard (Spec.abs b)) ops :=
+  Proofs.BotRefine.bot_refines_from b hb ops hwf
 
-/-- `set_board` forgets the history -/
-theorem setBoard_resets (s : State) (b : Board) : (setBoard s b).board = b ∧ (setBoard s b).table = [] := ⟨rfl, rfl⟩
-
-/-- `beq` (turn, rights, e.p. file, placement) is an equivalence: the table is keyed by positions -/
-theorem beq_refl (b : Board) : Board.beq b b = true := by simp [Board.beq]
-theorem beq_symm (a b : Board) (h : Board.beq a b = true) : Board.beq b a = true := by
-  simp only [Board.beq, Bool.and_eq_true, decide_eq_true_eq, beq_iff_eq] at *
-  obtain ⟨⟨⟨h1, h2⟩, h3⟩, h4⟩ := h
-  exact ⟨⟨⟨h1.symm, h2.symm⟩, h3.symm⟩, h4.symm⟩
-theorem beq_trans (a b c : Board) (h1 : Board.beq a b = true) (h2 : Board.beq b c = true) :
-    Board.beq a c = true := by
-  simp only [Board.beq, Bool.and_eq_true, decide_eq_true_eq, beq_iff_eq] at *
-  obtain ⟨⟨⟨a1, a2⟩, a3⟩, a4⟩ := h1
-  obtain ⟨⟨⟨b1, b2⟩, b3⟩, b4⟩ := h2
-  exact ⟨⟨⟨a1.trans b1, a2.trans b2⟩, a3.trans b3⟩, a4.trans b4⟩
-
-/-- the flag is raised exactly when the counter of that position becomes 3 -/
-theorem add_flag (t : ThreeFold) (b : Board) : (t.add b).2 = (satAdd8 (t.get b) == 3) := by
-  simp [ThreeFold.add]
-
-/-- the saturating counter never leaves `u8` and, once saturated, never reports 3 again -/
-theorem satAdd8_le (a : Nat) : satAdd8 a ≤ 255 := by unfold satAdd8; split <;> omega
-theorem satAdd8_three (a : Nat) : satAdd8 a = 3 ↔ a = 2 := by unfold satAdd8; split <;> omega
+/-- non-vacuity: a sequence with a legal move, an illegal move and a `set_board` meets the hypothesis -/
+example : ∀ b, Proofs.BotRefine.Op.set b ∈
+    [Proofs.BotRefine.Op.mv ⟨12, 28, none⟩, .mv ⟨0, 63, none⟩, .set Board.standard] → b.WF = true := by
+  intro b hb
+  simp at hb
+  subst hb
+  decide +kernel
 
 end Chess.Props.C15
